@@ -77,6 +77,15 @@ def generate(rng, tier, stats):
                     faults["delete_pods"] = rng.sample(pods, rng.randint(1, len(pods)))
                 wprop.bump(stats, "later sync with rejected pod calls", "yes")
             ops.append(K.reconcile("ers", worldgen.NS, "foo-a", faults))
+        if freq >= 10 and rng.random() < 0.15:
+            # the role changed since the last full sync, which is younger than the period: the gate still holds
+            for o in c["objects"]:
+                if o["kind"] == "ExtendedDaemonSetReplicaSet" and o["metadata"]["name"] == "foo-a":
+                    o["status"]["status"] = rng.choice(["canary", "unknown", ""])
+                    conds = o["status"].setdefault("conditions", [])
+                    conds[:] = [x for x in conds if x["type"] != "LastFullSync"]
+                    conds.append(K.cond("LastFullSync", "True", trans=-3000, update=-rng.choice([1, 2, freq - 1])))
+            wprop.bump(stats, "role changed inside the sync period", "yes")
         c["ops"] = ops
         wprop.bump(stats, "frequency", freq)
         wprop.bump(stats, "interval", interval)
